@@ -213,7 +213,7 @@ def check_structure(label, atoms, hint, tier, seed, res=None, only=None):
         return viol
     is_base = (":" not in label) or label.startswith("mol:")
     k = sum(ord(c) for c in label)
-    plist = PARAMS if (is_base or tier != "quick" or k % 5 == 0) else [{}, PARAMS[1 + k % 5]]
+    plist = PARAMS if (is_base or k % 5 == 0) else [{}, PARAMS[1 + k % 5]]
     for pr in plist:
         if only is not None and pr != only["params"]:
             continue
